@@ -1,19 +1,85 @@
 SPEC = {
     "property": "C20",
-    "rule": "TODO",
-    "assumptions": [],
+    "rule": "LATTICE unit: a case is one simplex in permutahedral representation (star_dN: the k-th simplex, in lexicographic order of vertex "
+            "sets, of the oracle-enumerated star of a lattice vertex in ambient dimension N = 1..4 - round 0 at the origin, later rounds "
+            "randomly translated and with shuffled part order; rand_lo / rand_hi: random ordered partition and vertex, d = 1..4 / 5..6). "
+            "For it, for a sample of the simplices the library derives from it, and for located simplices: vertex_range gives dimension+1 "
+            "distinct lattice points forming a chain in a unit cube; face_range(k) for every k and facet_range equal the (k+1)-subsets of "
+            "the vertex set (compared as sets of integer vectors, no duplicates) and each is recognised by is_face_of; coface_range(l) for "
+            "every l (closed-form size <= cap) and cofacet_range equal the oracle's set of all l-simplices of the Freudenthal-Kuhn "
+            "triangulation containing it (naive chain search, cross-checked against a closed form and against the permutation phrasing of "
+            "the definition), each contains it, has dimension l, is recognised by is_face_of; conversely the simplex is listed among the "
+            "faces of its listed cofaces and among the cofaces of its listed faces; is_face_of equals vertex-set inclusion against every "
+            "simplex of the same star (both directions) and against random faces / cofaces / cofaces of faces / translates / neighbours. "
+            "LOCATE units: a case is one triangulation (Freudenthal default / matrix+offset through every constructor and change_* path / "
+            "Coxeter type A, d = 1..6, scale in {.5,1,2,3,4}) queried at ~25 points: lattice vertices, generic points, barycenter() and "
+            "dyadic-weight points of faces of a located simplex, points with weight 2^-18 resp. 2^-40 on the extra vertices of a coface. "
+            "For each: the returned representation is an ordered partition of 0..d with d last, its vertices form a simplex, the point is a "
+            "convex combination of their Cartesian coordinates (Eigen least squares, residual and weights at 1e-7), no returned vertex has "
+            "weight <= 1e-10 (documented snapping 1e-9), every vertex with weight > 1e-6 in any top simplex {y, y+e_p(1), ...} containing "
+            "the point (all permutations, all unit cubes within 1e-6) is returned, and in the exact set-up (identity map, power-of-two "
+            "scale, dyadic weights) the returned vertex set is exactly the expected face. cartesian_coordinates and barycenter are compared "
+            "with M v / scale + b and the vertex mean. "
+            "non-trivial = lattice case whose simplex has 0 < dimension < d (proper faces and proper cofaces), locate case that located a "
+            "face point of a face with 0 < dimension < d; distinct by hash of the case history.",
+    "assumptions": [
+        "simplices handed to the library are ordered partitions of {0..d} into non-empty parts with d in the last part (what locate_point, "
+        "face_range and coface_range produce, and what Coface_iterator requires); the order inside a part is arbitrary",
+        "face_range / coface_range are called with dimensions inside their documented ranges only",
+        "lattice coordinates stay below 2^11, matrices have condition number < ~30, scales in [0.5, 4]",
+        "a returned vertex is called negligible below weight 1e-10 and mandatory above 1e-6; the library's own merging threshold is 1e-9 in "
+        "lattice coordinates, weights in between are accepted either way",
+        "trusted: fk_oracle.h (chains in a unit cube), Eigen's dense solvers, libstdc++",
+    ],
     "units": [
         {"name": "lattice", "src": ["c20_lattice.cpp"], "variant": "asan",
          "configs": {"star_d1": {"quick": 30, "thorough": 300}, "star_d2": {"quick": 130, "thorough": 1300},
                      "star_d3": {"quick": 300, "thorough": 3000}, "star_d4": {"quick": 541, "thorough": 2705},
-                     "rand_lo": {"quick": 1500, "thorough": 60000}, "rand_hi": {"quick": 400, "thorough": 12000}},
+                     "rand_lo": {"quick": 1500, "thorough": 40000}, "rand_hi": {"quick": 400, "thorough": 8000}},
          "chunk": 10},
         {"name": "locate_fk", "src": ["c20_locate.cpp"], "variant": "asan",
-         "configs": {"fk_identity": {"quick": 400, "thorough": 20000}, "fk_affine": {"quick": 400, "thorough": 20000}}, "chunk": 10},
+         "configs": {"fk_identity": {"quick": 400, "thorough": 12000}, "fk_affine": {"quick": 400, "thorough": 12000}}, "chunk": 10},
         {"name": "locate_cox", "src": ["c20_locate.cpp"], "variant": "asan", "defs": ["C20_COX"],
-         "configs": {"coxeter": {"quick": 400, "thorough": 20000}}, "chunk": 10},
+         "configs": {"coxeter": {"quick": 400, "thorough": 12000}}, "chunk": 10},
     ],
-    "floors": {"quick": {}, "thorough": {}},
-    "exhaustive": {"quick": False, "thorough": False},
-    "manifest": {"text": "TODO", "note": "TODO", "technique": "runtime monitoring"},
+    "floors": {
+        "quick": {"exh.star_d1.round0": 3, "exh.star_d2.round0": 13, "exh.star_d3.round0": 75, "exh.star_d4.round0": 541,
+                  "obs.coface_range.proper_nontrivial": 15000, "obs.cofaces_listed": 500000, "obs.faces_listed": 100000,
+                  "obs.is_face_of.want_true": 40000, "obs.is_face_of.want_false": 300000,
+                  "obs.converse.face_of_coface": 100000, "obs.converse.coface_of_face": 12000,
+                  "level2.face": 5000, "level2.coface": 2000, "shape.dim3.d6": 8, "shape.dim0.d5": 10,
+                  "obs.locate_point": 14000, "obs.locate_point.lattice_vertex": 1000, "obs.locate_point.generic": 1000,
+                  "obs.locate_point.face_barycenter": 4000, "obs.locate_point.face_dyadic_point": 4000,
+                  "obs.locate_point.near_face_2e-18": 1200, "obs.locate_point.near_face_2e-40": 1200,
+                  "obs.enumeration": 10000, "obs.barycenter": 4000, "obs.cartesian_coordinates": 1000,
+                  "setup.fk_identity,exact": 120, "setup.fk_identity,scale3": 30, "setup.fk_affine.shear": 60,
+                  "setup.fk_affine.rot_scale": 90, "setup.fk_affine.ctor2": 40, "setup.coxeter.offset": 80, "setup.coxeter.origin": 80,
+                  "shape.located_dim6": 150, "shape.face_point_dim3": 600,
+                  "_distinct_nontrivial": 1200},
+        "thorough": {"exh.star_d1.round0": 3, "exh.star_d2.round0": 13, "exh.star_d3.round0": 75, "exh.star_d4.round0": 541,
+                     "obs.coface_range.proper_nontrivial": 300000, "obs.cofaces_listed": 10000000, "obs.is_face_of.want_true": 1000000,
+                     "obs.locate_point": 400000, "obs.enumeration": 300000, "obs.locate_point.near_face_2e-40": 40000,
+                     "_distinct_nontrivial": 30000},
+    },
+    "exhaustive": {"quick": False, "thorough": True},
+    "exhaustive_note": "exhaustive only for this sub-space: every simplex of every dimension incident to one lattice vertex, ambient dimension "
+                       "1..4 (3 / 13 / 75 / 541 simplices = every ordered set partition shape of {0..d}); each with all its faces, all its "
+                       "cofaces of every dimension and the full is_face_of table of the star. Everything else (d = 5, 6, point location) is sampled.",
+    "manifest": {
+        "text": "Runtime monitor under ASan+UBSan. Face lattice: every simplex around a lattice vertex for ambient dimension <= 4 (exhaustive: all "
+                "ordered set partition shapes) plus random simplices up to dimension 6 are pushed through vertex_range / face_range / "
+                "facet_range / coface_range / cofacet_range / is_face_of and compared, as sets of integer vertices, with an independent model of "
+                "the Freudenthal-Kuhn triangulation (simplices = chains of Z^d inside a unit cube), including the coface<->face converse in "
+                "both directions. Point location: thousands of lattice vertices, generic points, face barycentres and points 2^-40 / 2^-18 "
+                "away from faces, in Freudenthal (identity and random affine maps, every constructor / change_* path) and Coxeter "
+                "triangulations, d <= 6, scales .5..4: the returned simplex must be a simplex, contain the point (barycentric solve in "
+                "Cartesian coordinates), keep every vertex of non-negligible weight in every top simplex containing the point (brute-force "
+                "enumeration), carry no vertex of weight <= 1e-10, and be exactly the constructed face where arithmetic is exact. "
+                "Held-on-what-was-observed, not a proof; adequate because the combinatorics depend only on the ordered-partition shape "
+                "(all enumerated up to d = 4) and point location only on the order and gaps of d fractional parts, which the constructed "
+                "points hit on every face type.",
+        "note": "trusted base: harness/c20_coxeter/fk_oracle.h, Eigen dense solvers, libstdc++. Inputs are ordered partitions with d in the last "
+                "part; coordinates small; matrices well conditioned; weights between 1e-10 and 1e-6 are accepted either way.",
+        "technique": "runtime monitoring: exhaustive small-scope enumeration + randomized inputs against a reference-model oracle, under AddressSanitizer/UBSan",
+    },
 }
